@@ -331,9 +331,9 @@ impl C17 {
                 .map(|v| v.iter().map(|p| Self::idx_of(&names, &p.read().unwrap().name)).collect::<Vec<usize>>())
                 .map_err(|e| format!("{e:?}"))
         });
-        self.judge(key, if abs_sinks { "raw-DepOrder(abstract-only sinks)" } else { "raw-DepOrder" }, g, listing, res, cx);
+        self.judge(key, if abs_sinks { "raw-DepOrder+abstract-only-sinks" } else { "raw-DepOrder" }, g, listing, res, cx);
         let res = guard(|| lib.to_proto().map(|p| p.cells.iter().map(|c| Self::idx_of(&names, &c.name)).collect::<Vec<usize>>()).map_err(|e| format!("{e:?}")));
-        self.judge(key, if abs_sinks { "raw-to_proto(abstract-only sinks)" } else { "raw-to_proto" }, g, listing, res, cx);
+        self.judge(key, if abs_sinks { "raw-to_proto+abstract-only-sinks" } else { "raw-to_proto" }, g, listing, res, cx);
         // break the reference cycles so that the memory is freed
         for p in lib.cells.iter() {
             if let Ok(mut c) = p.write() {
@@ -432,11 +432,11 @@ impl C17 {
         let res = guard(|| {
             lib.dep_order().map(|v| v.iter().map(|p| Self::idx_of(&names, &p.read().unwrap().name)).collect::<Vec<usize>>()).map_err(|e| format!("{e:?}"))
         });
-        self.judge(key, if abs_sinks { "tetris-dep_order(abstract-only sinks)" } else { "tetris-dep_order" }, g, listing, res, cx);
+        self.judge(key, if abs_sinks { "tetris-dep_order+abstract-only-sinks" } else { "tetris-dep_order" }, g, listing, res, cx);
         let res = guard(|| {
             tetris::conv::proto::ProtoExporter::export(&lib).map(|p| p.cells.iter().map(|c| Self::idx_of(&names, &c.name)).collect::<Vec<usize>>()).map_err(|e| format!("{e:?}"))
         });
-        self.judge(key, if abs_sinks { "tetris-proto-export(abstract-only sinks)" } else { "tetris-proto-export" }, g, listing, res, cx);
+        self.judge(key, if abs_sinks { "tetris-proto-export+abstract-only-sinks" } else { "tetris-proto-export" }, g, listing, res, cx);
         // Placer::place walks the cells in dependency order as well
         let res = guard(|| {
             tetris::placer::Placer::place(lib, Self::empty_stack())
